@@ -412,9 +412,8 @@ impl Oplog {
         let len = usize::try_from(combined >> 2)
             .expect("Attempted converting to a 32 bit usize on below 32 bit system");
 
-        // NB: In the Javascript version IIUC zero length is caught only with a mismatch
-        // of checksums, which is silently interpreted to only mean "no value". That doesn't sound good:
-        // better to throw an error on mismatch and let the caller at least log the problem.
+        // NB: In the Javascript version zero length is caught only with a mismatch
+        // of checksums, which is interpreted to mean "no value", see below.
         if len == 0 || data_buff.len() < len {
             return Ok(None);
         }
@@ -425,9 +424,11 @@ impl Oplog {
         let to_hash = &buffer[CRC_SIZE..LEADER_SIZE + len];
         let calculated_checksum = crc32fast::hash(to_hash);
         if calculated_checksum != stored_checksum {
-            return Err(HypercoreError::InvalidChecksum {
-                context: format!("Calculated signature [{calculated_checksum}] does not match oplog signature [{stored_checksum}]"),
-            });
+            // A write that was cut short by a crash leaves a leader whose checksum does not
+            // match. As in Javascript this means "no value": a torn header slot falls back to
+            // the other slot and a torn entry ends the log. Reporting an error instead would
+            // make the storage impossible to open after such a crash.
+            return Ok(None);
         };
         Ok(Some(ValidateLeaderOutcome {
             header_bit,
